@@ -120,4 +120,41 @@ theorem cut_index_not_eof (maxseq : Nat) (maxpacket : Int) (o : Opened) (h : o.i
   · simp [he, hne]
   · simp [he]
 
+theorem take_hdr_idx (a b c d e f g h i j : Nat) (rest : List UInt8) (m : Nat) :
+    (le32 a ++ le32 b ++ (le32 c ++ (le32 d ++ (le32 e ++ (le32 f ++ (le32 g ++ (le64 h ++ (le64 i ++ (le64 j ++ rest))))))))).take (52 + m) =
+      le32 a ++ le32 b ++ (le32 c ++ (le32 d ++ (le32 e ++ (le32 f ++ (le32 g ++ (le64 h ++ (le64 i ++ (le64 j ++ rest.take m)))))))) := by
+  have hl : (le32 a ++ le32 b ++ le32 c ++ le32 d ++ le32 e ++ le32 f ++ le32 g ++ le64 h ++ le64 i ++ le64 j).length = 52 := by
+    simp [le32, le64]
+  have e1 : le32 a ++ le32 b ++ (le32 c ++ (le32 d ++ (le32 e ++ (le32 f ++ (le32 g ++ (le64 h ++ (le64 i ++ (le64 j ++ rest))))))))
+      = (le32 a ++ le32 b ++ le32 c ++ le32 d ++ le32 e ++ le32 f ++ le32 g ++ le64 h ++ le64 i ++ le64 j) ++ rest := by
+    simp only [List.append_assoc]
+  rw [e1, ← hl, List.take_length_add_append]
+  simp only [List.append_assoc]
+
+/-- **`esl_dsqdata_Open` on written files whose `.dsqi` was cut `m` bytes behind its 52-byte header**: accepted, same header values
+    (`nseq` included); only the unread part of the index is shorter -/
+theorem openDb_cut_idx (tag alphatype : Nat) (fname fmt : List UInt8) (db : List SeqRec)
+    (hty : alphatype = 1 ∨ alphatype = 2 ∨ alphatype = 3) (hlen : ∀ r ∈ db, r.dsq.length < 6 * MAXPACKET)
+    (expect : Option Nat) (hexp : expect = none ∨ expect = some alphatype) (m : Nat) :
+    ∃ f, writeDb tag alphatype fname fmt db = .ok f ∧
+      openDb expect { f with idx := f.idx.take (52 + m) } =
+        .ok { writtenHeader tag alphatype (alphatype == 3) db with ifp := (writtenHeader tag alphatype (alphatype == 3) db).ifp.take m } := by
+  have hany : db.any (fun r => decide (r.dsq.length ≥ 6 * MAXPACKET)) = false := by
+    rw [List.any_eq_false]
+    intro r hr
+    have := hlen r hr
+    simp only [ge_iff_le, decide_eq_true_eq]; omega
+  have hne : ¬ (alphatype ≠ 3 ∧ alphatype ≠ 2 ∧ alphatype ≠ 1) := by omega
+  refine ⟨_, by simp only [writeDb, hany, hne, Bool.false_eq_true, if_false]; rfl, ?_⟩
+  have hM : MAGIC % 4294967296 = MAGIC := by decide
+  have hMS : ¬ (MAGIC = MAGIC_SWAP) := by decide
+  have hA : alphatype % 4294967296 = alphatype := by omega
+  simp only [openDb, take_hdr_idx, parseStub_stubLine1, rdFields_idx, rdFields_two, List.getD_cons_zero, List.getD_cons_succ, hM, hMS, hA,
+    ne_eq, not_true_eq_false, if_false]
+  rcases hexp with rfl | rfl
+  · have h1 : ¬ (alphatype = 0 ∨ alphatype > 6) := by omega
+    have h2 : ¬ (alphatype = 6) := by omega
+    simp only [h1, h2, if_false, writtenHeader, Nat.zero_mod]
+  · simp only [not_true_eq_false, if_false, writtenHeader, Nat.zero_mod]
+
 end EaselModel.Dsqdata
